@@ -647,6 +647,11 @@ Definition Inv (s : st) : Prop :=
 Definition OOF (s : st) (o : list obs) : Prop :=
   pc s = PcNone /\ state s <> Idle /\ In (OBad 1) o.
 
+(* when `_run` arrives at its paused await, the engine is paused, interrupted, and the blocking
+   event is set *)
+Definition paused_entry (s' : st) : Prop :=
+  pc s' = PcPaused -> state s' = Paused /\ blocking s' = true /\ interrupted s' = true.
+
 Lemma set_state_inv s x s' o :
   set_state s x = Some (s', o) -> allowed (state s) x = true /\ s' = RE.set_state_raw P D s x.
 Proof. unfold RE.set_state. destruct (allowed (state s) x); intros H; inversion H; auto. Qed.
@@ -656,7 +661,7 @@ Proof. unfold RE.set_state. destruct (allowed (state s) x); intros H; [discrimin
 Hypothesis HG : pause_hook_ctl -> G.
 
 Ltac open_inv :=
-  unfold DInv, Inv, stack_c, permit_c, stash_c, cancel_c, pr_c, stack_a, aligned, R6, PR in *.
+  unfold DInv, Inv, stack_c, permit_c, stash_c, cancel_c, pr_c, stack_a, aligned, R6, PR, paused_entry in *.
 
 Ltac rw_proj :=
   repeat match goal with
@@ -725,7 +730,12 @@ Ltac dleaf :=
 Definition dstep_post (res : (st * ctl * list obs) + (st * list obs)) : Prop :=
   match res with
   | inl (s1, c1, _) => DInv c1 s1
-  | inr (s', _) => Inv s'
+  | inr (s', _) => Inv s' /\ paused_entry s'
+  end.
+Definition tentry_post (s : st) (res : (st * ctl * list obs) + (st * list obs)) : Prop :=
+  match res with
+  | inl (s1, c1, _) => DInv c1 s1
+  | inr (s', _) => Inv s' /\ (pc s' = PcPaused -> s' = s)
   end.
 
 (* one interpreter step: the next configuration satisfies the interpreter invariant, a
@@ -785,8 +795,8 @@ Proof.
     destruct pending as [e|]; [destruct e|]; simp_fn; fin0. }
 Qed.
 
-Lemma drive_inv fuel : forall s c os s' o,
-  DInv c s -> drive fuel s c os = (s', o) -> Inv s' \/ OOF s' o.
+Lemma drive_inv_entry fuel : forall s c os s' o,
+  DInv c s -> drive fuel s c os = (s', o) -> (Inv s' /\ paused_entry s') \/ OOF s' o.
 Proof.
   induction fuel as [|fuel IH]; intros s c os s' o HD H.
   { cbn [RE.drive] in H. inversion H; subst. right. unfold OOF. simp_st. destruct HD as (D1 & _).
@@ -795,6 +805,12 @@ Proof.
   destruct (dstep s c os) as [[[s1 c1] os1]|[s2 o2]]; cbn [dstep_post] in Hp.
   - eapply IH; eassumption.
   - inversion H; subst. left; exact Hp.
+Qed.
+
+Lemma drive_inv fuel s c os s' o :
+  DInv c s -> drive fuel s c os = (s', o) -> Inv s' \/ OOF s' o.
+Proof.
+  intros HD H. destruct (drive_inv_entry fuel s c os s' o HD H) as [[H1 _]|H1]; [left | right]; exact H1.
 Qed.
 
 (* the configurations [drive] goes through *)
@@ -884,12 +900,12 @@ Lemma task_step_tentry s :
 Proof. unfold RE.task_step, tentry. cbv zeta. repeat break_goal; reflexivity. Qed.
 
 (* the task enters the interpreter only in configurations satisfying its invariant *)
-Lemma tentry_inv s res : Inv s -> tentry s = res -> dstep_post res.
+Lemma tentry_inv s res : Inv s -> tentry s = res -> tentry_post s res.
 Proof.
-  intros HI H. unfold tentry in H. cbv zeta in H. unfold dstep_post.
+  intros HI H. unfold tentry in H. cbv zeta in H. unfold tentry_post.
   assert (A1 : pc_state_ok (pc s) (state s) = true) by apply HI.
   destruct (pc s) eqn:Epc.
-  - (* PcNone *) subst res. exact HI.
+  - (* PcNone *) subst res. split; [exact HI | reflexivity].
   - (* PcNotStarted *)
     destruct (state s) eqn:Est; try discriminate A1. clear A1.
     unfold RE.set_state in H. simp_st. rewrite Est, allowed_idle_running in H.
@@ -926,15 +942,24 @@ Proof.
     destruct (must_cancel s) eqn:Emc; subst res;
       match goal with |- context [finalize ?a ?b ?c] => destruct (finalize a b c) as [s1 o1] eqn:Ef end;
       (apply finalize_spec in Ef; [|simp_st; exact Hal]); unfold final_res in Ef; simp_st; fin.
-  - (* PcDone *) subst res. exact HI.
+  - (* PcDone *) subst res. split; [exact HI | reflexivity].
+Qed.
+
+Lemma task_step_inv_entry s s' o :
+  Inv s -> task_step s = (s', o) ->
+  (Inv s' /\ (pc s' = PcPaused -> s' = s \/ (state s' = Paused /\ blocking s' = true /\ interrupted s' = true)))
+  \/ OOF s' o.
+Proof.
+  intros HI H. rewrite task_step_tentry in H. pose proof (tentry_inv s _ HI eq_refl) as Hp.
+  destruct (tentry s) as [[[s1 c1] os1]|[s2 o2]]; cbn [tentry_post] in Hp.
+  - destruct (drive_inv_entry _ _ _ _ _ _ Hp H) as [[H1 H2]|H1]; [left|right; exact H1].
+    split; [exact H1 | intros Hpc; right; exact (H2 Hpc)].
+  - inversion H; subst. left. destruct Hp as [H1 H2]. split; [exact H1 | intros Hpc; left; exact (H2 Hpc)].
 Qed.
 
 Lemma task_step_inv s s' o : Inv s -> task_step s = (s', o) -> Inv s' \/ OOF s' o.
 Proof.
-  intros HI H. rewrite task_step_tentry in H. pose proof (tentry_inv s _ HI eq_refl) as Hp.
-  destruct (tentry s) as [[[s1 c1] os1]|[s2 o2]]; cbn [dstep_post] in Hp.
-  - eapply drive_inv; eassumption.
-  - inversion H; subst. left; exact Hp.
+  intros HI H. destruct (task_step_inv_entry s s' o HI H) as [[H1 _]|H1]; [left | right]; exact H1.
 Qed.
 
 (* ------------------------------------------------------------------ one event *)
@@ -1135,6 +1160,52 @@ Proof.
   - destruct Ho as [Hpc Hst]. rewrite Hpc in H. inversion H; subst. split; assumption.
 Qed.
 
+(* only the task moves the pc (a new call resets it) *)
+Ltac pleaf :=
+  norm;
+  repeat match goal with H : RE.req_result _ _ _ _ = _ |- _ => apply req_result_same in H end;
+  frames; unfold samecb, samec, same in *; simp_st; split_ands;
+  first [ left; congruence | right; reflexivity | left; reflexivity ].
+
+Lemma step_pc s e s' o :
+  step s e = (s', o) -> e <> EvTask -> pc s' = pc s \/ pc s' = PcNotStarted.
+Proof.
+  intros H Hne. destruct e; cbn [RE.step] in H; try (exfalso; apply Hne; reflexivity); clear Hne.
+  - destruct a; eqb_cases H; repeat (bm_hyp H); pleaf.
+  - pleaf.
+  - pleaf.
+  - destruct (request_pause s defer) as [[s1 e1] o1] eqn:Erp.
+    apply request_pause_spec in Erp. destruct Erp as [Erp|Erp]; [|unfold pause_acc in Erp];
+      destruct (RE.req_result P D s1 e1) as [s2 o2] eqn:Err; pleaf.
+  - simp_st. eqb_cases H; repeat (bm_hyp H); pleaf.
+  - simp_st. eqb_cases H; repeat (bm_hyp H); pleaf.
+  - simp_st. eqb_cases H; repeat (bm_hyp H); pleaf.
+  - unfold RE.resumable in H. simp_st. eqb_cases H; repeat (bm_inner H; simp_st; try (eqb_cases H)); pleaf.
+  - pleaf.
+  - repeat (bm_hyp H); pleaf.
+  - pleaf.
+  - repeat (bm_hyp H); pleaf.
+Qed.
+
+(* the engine becomes paused only by the task reaching its paused await, and then it is
+   paused, marked interrupted, blocking, with a checkpoint to rewind to, and the task waits for
+   the run permit *)
+Theorem enter_paused s e s' o :
+  Inv s -> step s e = (s', o) -> pc s <> PcPaused -> pc s' = PcPaused ->
+  e = EvTask /\ state s' = Paused /\ blocking s' = true /\ interrupted s' = true /\
+  resumable s' = true /\ must_cancel s' = false /\ permit s' = false.
+Proof.
+  intros HI H Hn Hp.
+  assert (He : e = EvTask).
+  { destruct e; try reflexivity;
+      (destruct (step_pc _ _ _ _ H) as [Hx|Hx]; [discriminate | congruence | congruence]). }
+  subst e. split; [reflexivity|]. cbn [RE.step] in H.
+  destruct (task_step_inv_entry s s' o HI H) as [[HI' Hent]|(Hpc & _)]; [|congruence].
+  destruct (Hent Hp) as [Hs|(A & B & C)]; [congruence|].
+  destruct HI' as (_ & _ & H3 & _). destruct (H3 Hp) as (M & R & Pm).
+  repeat split; try assumption. exact (Pm B).
+Qed.
+
 (* ------------------------------------------------------------------ schedules *)
 (* no event of the schedule releases the permit of a paused, still interrupted engine *)
 Fixpoint sched_ok (s : st) (evs : list event) : Prop :=
@@ -1275,8 +1346,8 @@ Definition visited (s : st) (cfg : st * ctl * list obs) : Prop :=
 Lemma visited_DInv s s1 c1 os1 : Inv G s -> visited s (s1, c1, os1) -> DInv G c1 s1.
 Proof.
   intros HI [[[sa ca] osa] [He Hr]].
-  assert (H0 : dstep_post G (inl (sa, ca, osa))) by (eapply tentry_inv; eassumption).
-  cbn [dstep_post] in H0.
+  assert (H0 : tentry_post G s (inl (sa, ca, osa))) by (eapply tentry_inv; eassumption).
+  cbn [tentry_post] in H0.
   exact (dreach_DInv G HG _ _ Hr H0).
 Qed.
 
@@ -1412,6 +1483,17 @@ Proof.
   intros Hno Hv.
   destruct (cleanup_always_accepted _ escape_hook _ _ _ _ _ (reach_Inv Hno) Hv) as (A & B & _).
   split; assumption.
+Qed.
+
+(* replaces the second half of (I3): a reachable engine becomes paused only through the task,
+   and is then paused, interrupted, blocking, resumable, waiting for the permit *)
+Theorem paused_only_by_task e s' o :
+  ~ In (OBad 1) oN -> step sN e = (s', o) -> pc sN <> PcPaused -> pc s' = PcPaused ->
+  e = EvTask /\ state s' = Paused /\ blocking s' = true /\ interrupted s' = true /\
+  resumable s' = true /\ must_cancel s' = false /\ permit s' = false.
+Proof.
+  intros Hno Hst Hn Hp.
+  eapply enter_paused; [exact escape_hook | apply reach_Inv, Hno | exact Hst | exact Hn | exact Hp].
 Qed.
 
 Theorem interrupted_has_cause : ~ In (OBad 1) oN -> interrupted sN = true -> icause sN <> None.
